@@ -28,6 +28,9 @@ use simworld::logworld::{key_bytes, signing_key};
 use super::nodeops::{NodeEvent, NodePipeline, NodeTasks, event_for, make_op, short};
 
 const SITE: &str = "task.ready.between_check_and_wait";
+/// Optional hook H1b: scheduling points between the three steps of `Pipeline::process`.
+const SITE_TRACK_SEND: &str = "pipeline.process.between_track_and_send";
+const SITE_SEND_READY: &str = "pipeline.process.between_send_and_ready";
 
 /// Simulated seconds after which one `process()` call counts as "never returns".
 const CALL_TIMEOUT_S: u64 = 300;
@@ -35,6 +38,7 @@ const CALL_TIMEOUT_S: u64 = 300;
 const SITE_LOST_WAKEUP: &str = "Task::ready: mark_as_done ran between the result check and notified() (lost wake-up)";
 const SITE_PREEMPTED_NOT_HIT: &str = "Task::ready: preempted at the yield point, mark_as_done ran outside the window";
 const SITE_NO_PREEMPTION: &str = "Pipeline::process: no preemption fired";
+const SITE_PROCESS_PREEMPTED: &str = "Pipeline::process: preempted between track, send and ready";
 
 thread_local! {
     /// Submitter whose future is being polled right now (`usize::MAX` = none / the worker).
@@ -69,6 +73,8 @@ struct Shared {
     /// Per submitter, for the call in flight: `mark_as_done` for its operation completed while the
     /// submitter sat in the window.
     hit: Vec<bool>,
+    /// Per submitter, for the call in flight: a preemption fired between the steps of `process`.
+    preempted_process: Vec<bool>,
     labels: BTreeMap<Hash, String>,
     /// Per submitter: how often it reached the H1 site (i.e. did not find the result at the check).
     site_visits: Vec<u64>,
@@ -99,32 +105,34 @@ impl Property for C14Prop {
         }
     }
     fn modes(&self) -> u32 {
-        2
+        3
     }
     fn mode_name(&self, mode: u32) -> &'static str {
         match mode {
             0 => "no preemption inside Task::ready (fault-free)",
-            _ => "pipeline thread preempts submitters at the H1 yield point inside Task::ready",
+            1 => "pipeline thread preempts submitters at the H1 yield point inside Task::ready",
+            _ => "preemption at the H1 yield point and between track / send / ready inside Pipeline::process (H1b)",
         }
     }
     fn rule(&self) -> &'static str {
-        "one run = 2-6 submitter tasks x 1-5 Pipeline::process calls each (seeded submit gaps; a submission reuses an operation another submission also uses with probability 1/3, so the tracker deduplicates concurrent submissions), one simulated worker (recv, seeded delay, TaskTracker::mark_as_done), channel capacity 128/1/2/8, seeded task deferral; the faulty mode suspends a submitter at the yield point between the result check and notified() in Task::ready with a per-run rate of 1/8..8/8 for one scheduler yield or 1..20 ms simulated; every call must return within 300 simulated seconds with the event of its own operation; non-trivial = every run (at least 2 submitters); distinct = distinct trace fingerprint (plan, schedule, preemptions, completion order)"
+        "one run = 2-6 submitter tasks x 1-5 Pipeline::process calls each (seeded submit gaps; a submission reuses an operation another submission also uses with probability 1/3, so the tracker deduplicates concurrent submissions), one simulated worker (recv, seeded delay, TaskTracker::mark_as_done), channel capacity 128/1/2/8, seeded task deferral; the faulty modes suspend a submitter at the yield point between the result check and notified() in Task::ready (mode 1) and additionally between track / send / ready inside Pipeline::process (mode 2) with a per-run rate of 1/8..8/8 for one scheduler yield or 1..20 ms simulated; every call must return within 300 simulated seconds with the event of its own operation; non-trivial = every run (at least 2 submitters); distinct = distinct trace fingerprint (plan, schedule, preemptions, completion order)"
     }
     fn components_real(&self) -> Vec<&'static str> {
         vec!["p2panda::processor Pipeline::process (via Pipeline::from_parts, hook H2)", "TaskTracker::track / TaskTracker::mark_as_done", "Task::ready / Task::mark_as_done (tokio Mutex + Notify::notify_waiters)", "tokio mpsc channel between submitters and worker", "Event::new / Event::hash (Node extensions)"]
     }
     fn components_stub(&self) -> Vec<&'static str> {
-        vec!["pipeline thread: one simulated worker task (recv -> seeded delay -> tasks.mark_as_done(hash, event)) stands in for Ingest + LogPrune on the thread of Pipeline::new", "OS preemption of a submitter by that thread: yield point H1 driven by the choice stream"]
+        vec!["pipeline thread: one simulated worker task (recv -> seeded delay -> tasks.mark_as_done(hash, event)) stands in for Ingest + LogPrune on the thread of Pipeline::new", "OS preemption of a submitter by that thread: yield points H1 / H1b driven by the choice stream"]
     }
     fn assumptions(&self) -> Vec<&'static str> {
-        vec!["the only point inside Task::ready without an .await where the interleaving with the pipeline thread matters is the one marked by hook H1; every other interleaving is produced by task deferral and simulated latencies at the existing .await points"]
+        vec!["interleavings with the pipeline thread are explored at the yield points of hooks H1 (inside Task::ready, between result check and wait registration) and H1b (between track, send and ready inside Pipeline::process) and at the existing .await points that really suspend; the bodies of TaskTracker::track / mark_as_done are atomic (they hold the tracker's write lock)"]
     }
     fn expected_probes(&self) -> Vec<&'static str> {
-        vec!["mark_as_done_inside_ready_window", "same_operation_in_flight_twice", "preempted_but_completed", "result_already_there_at_check"]
+        vec!["mark_as_done_inside_ready_window", "same_operation_in_flight_twice", "preempted_but_completed", "result_already_there_at_check", "preempted_between_track_and_send", "preempted_between_send_and_ready"]
     }
 
     fn run(&self) {
-        let preempting = ctx::mode() == 1;
+        let preempting = ctx::mode() >= 1;
+        let all_sites = ctx::mode() == 2;
         ctx::mark_nontrivial();
 
         // ---- workload ----------------------------------------------------------------------
@@ -161,7 +169,7 @@ impl Property for C14Prop {
         }
         ev!(
             "submitters={n_sub} operations={n_ops} channel capacity={capacity} preemption at H1: {}",
-            if preempting { format!("{rate_num}/8 per visit") } else { "never (fault-free)".to_string() }
+            if preempting { format!("{rate_num}/8 per visit{}", if all_sites { ", also between track / send / ready inside Pipeline::process" } else { "" }) } else { "never (fault-free)".to_string() }
         );
         for (s, v) in plan.iter().enumerate() {
             ev!("plan s{s}: {}", v.iter().map(|i| format!("op{i}")).collect::<Vec<_>>().join(" "));
@@ -172,6 +180,7 @@ impl Property for C14Prop {
             window: vec![None; n_sub],
             preempted: vec![false; n_sub],
             hit: vec![false; n_sub],
+            preempted_process: vec![false; n_sub],
             labels: ops.iter().enumerate().map(|(i, o)| (o.hash, format!("op{i}"))).collect(),
             site_visits: vec![0; n_sub],
         }));
@@ -180,18 +189,37 @@ impl Property for C14Prop {
         {
             let shared = shared.clone();
             p2panda_core::verif::set_yield_handler(move |name| {
-                if name != SITE {
+                let ready_site = name == SITE;
+                if !ready_site && name != SITE_TRACK_SEND && name != SITE_SEND_READY {
                     return None;
                 }
                 let s = CURRENT.with(|c| c.get());
                 if s == usize::MAX {
                     return None;
                 }
-                shared.lock().unwrap().site_visits[s] += 1;
-                if rate_num == 0 || !ctx::chance("preempt", rate_num, 8) {
+                if ready_site {
+                    shared.lock().unwrap().site_visits[s] += 1;
+                }
+                if rate_num == 0 || (!ready_site && !all_sites) || !ctx::chance("preempt", rate_num, 8) {
                     return None;
                 }
                 let us = *ctx::pick("preempt.window_us", &[0u64, 1_000, 2_000, 5_000, 20_000]);
+                if !ready_site {
+                    // Between the steps of Pipeline::process: a plain scheduling point.
+                    ctx::fault("preempt(pipeline.process)");
+                    ctx::probe(if name == SITE_TRACK_SEND { "preempted_between_track_and_send" } else { "preempted_between_send_and_ready" });
+                    let mut sh = shared.lock().unwrap();
+                    sh.preempted_process[s] = true;
+                    let label = sh.in_flight[s].and_then(|(_, h)| sh.labels.get(&h).cloned()).unwrap_or_default();
+                    ev!("t={} s{s}: PREEMPTED inside Pipeline::process({label}) {}: {}", des::now_us(), if name == SITE_TRACK_SEND { "after track, before send" } else { "after send, before ready" }, if us == 0 { "one scheduler yield".to_string() } else { format!("{us} us") });
+                    return Some(Box::pin(async move {
+                        if us == 0 {
+                            des::yield_now().await;
+                        } else {
+                            tokio::time::sleep(Duration::from_micros(us)).await;
+                        }
+                    }));
+                }
                 ctx::fault("preempt(task.ready)");
                 let waiting_for = shared.lock().unwrap().in_flight[s].map(|(_, h)| h);
                 {
@@ -277,17 +305,18 @@ impl Property for C14Prop {
                             sh.in_flight[s] = Some((k, h));
                             sh.preempted[s] = false;
                             sh.hit[s] = false;
+                            sh.preempted_process[s] = false;
                         }
                         let visits_before = shared.lock().unwrap().site_visits[s];
                         let label = shared.lock().unwrap().labels.get(&h).cloned().unwrap_or_default();
                         let t0 = des::now_us();
                         ev!("t={t0} s{s}#{k}: process({label})");
                         let out = tokio::time::timeout(Duration::from_secs(CALL_TIMEOUT_S), pipeline.process(input)).await;
-                        let (preempted, hit) = {
+                        let (preempted, hit, preempted_process) = {
                             let mut sh = shared.lock().unwrap();
                             sh.in_flight[s] = None;
                             sh.window[s] = None;
-                            (sh.preempted[s], sh.hit[s])
+                            (sh.preempted[s], sh.hit[s], sh.preempted_process[s])
                         };
                         match out {
                             Ok(event) => {
@@ -315,6 +344,8 @@ impl Property for C14Prop {
                                     SITE_LOST_WAKEUP
                                 } else if preempted {
                                     SITE_PREEMPTED_NOT_HIT
+                                } else if preempted_process {
+                                    SITE_PROCESS_PREEMPTED
                                 } else {
                                     SITE_NO_PREEMPTION
                                 };
@@ -322,7 +353,7 @@ impl Property for C14Prop {
                                 violation(
                                     "submission-never-completes",
                                     site,
-                                    format!("submitter {s}, submission #{k}: process({label}) submitted at t={t0} us had not returned {CALL_TIMEOUT_S} simulated seconds later (preempted at H1: {preempted}; mark_as_done for it ran inside the window: {hit})"),
+                                    format!("submitter {s}, submission #{k}: process({label}) submitted at t={t0} us had not returned {CALL_TIMEOUT_S} simulated seconds later (preempted at H1: {preempted}; mark_as_done for it ran inside the window: {hit}; preempted between the steps of process: {preempted_process})"),
                                 );
                                 // The property is violated for this submitter; its later submissions add
                                 // nothing but trace length.
